@@ -11,7 +11,7 @@ def HMAX(n):
     return 0 if n == 0 else 1 if n == 1 else 3 if n <= 3 else 6 if n <= 7 else 8
 def TR(name, op, tn, tiers, extra=(), height=None, **kw):
     h = HMAX(tn) if height is None else height + 1   # height of any tree the operation can see (pre-state height, +1 after insertion)
-    us = ["Type_Scan.0:24", "Type_Scan.1:24", "strcmp.0:24", "elem_live_count.0:26", "walk.0:26", "walk.1:%d" % (2 * tn + 5),
+    us = ["harness.%d:%d" % (i_, 2 * tn + 4) for i_ in range(6)] + ["Tree_Mark.0:%d" % (tn + 2), "Type_Scan.0:24", "Type_Scan.1:24", "strcmp.0:24", "elem_live_count.0:26", "walk.0:26", "walk.1:%d" % (2 * tn + 5),
           "pool_calloc.0:16", "index_of.0:%d" % (tn + 2), "memcpy.0:14", "memcpy.1:90", "snapshot.0:16", "snapshot.1:%d" % (tn + 2), "verif_on_throw.0:16", "verif_on_throw.1:%d" % (tn + 2),
           "Tree_Set.0:%d" % (h + 2), "Tree_Set_Fix.0:%d" % (h // 2 + 3), "Tree_Rem.0:%d" % (h + 2), "Tree_Rem_Fix.0:%d" % (h + 2),
           "Tree_Maximum.0:%d" % (h + 1), "Tree_Mem.0:%d" % (h + 2), "Tree_Get.0:%d" % (h + 2),
@@ -33,7 +33,7 @@ def TS(name, op, maxn, si, tiers, **kw):
     o.name = "tree.%s.shape%d" % (name, si)
     o.desc = "Tree %s from red-black shape %s, symbolic keys/values" % (name, show(t))
     return o
-OPS = [("set", "OP_SET"), ("rem", "OP_REM"), ("get", "OP_GET"), ("iter", "OP_ITER"), ("remabsent", "OP_REM_ABSENT"), ("clear", "OP_CLEAR")]
+OPS = [("set", "OP_SET"), ("rem", "OP_REM"), ("get", "OP_GET"), ("iter", "OP_ITER"), ("remabsent", "OP_REM_ABSENT"), ("clear", "OP_CLEAR"), ("mark", "OP_MARK")]
 def family(maxn, tiers, checks, tag, timeout):
     out = []
     shapes = all_shapes(maxn)
